@@ -65,6 +65,10 @@ Proof.
   intro E. pose proof (CW_set_queue x t (cqueue_to t s ++ [el]) s1) as Q. rewrite E in Q.
   rewrite qslots_app, cnt_app in Q. unfold qslots at 3 in Q. cbn [flat_map] in Q. rewrite app_nil_r in Q. lia.
 Qed.
+Lemma CW_set_sock x t l s : CW x (set_sock t l s) = CW x s.
+Proof. reflexivity. Qed.
+Lemma CW_push_sock x t i s : CW x (push_sock t i s) = CW x s.
+Proof. reflexivity. Qed.
 Global Opaque CW.
 
 (* table entries and loop registers point to existing objects *)
@@ -110,6 +114,32 @@ Proof.
   split; [tvf; exact V |]. use_obj (V _ _ E). lia.
 Qed.
 
+Lemma c_poll_one_W e s s' : TV s -> c_poll_one e s = Some s' -> TV s' /\ forall x, CW x s' = CW x s.
+Proof.
+  intros V E.
+  unfold c_poll_one in E. destruct (loop_of e s) eqn:L; try discriminate.
+    destruct (cqueue_to e s) as [|q rest] eqn:Q; [discriminate |].
+    assert (V0 : TV (cset_queue e rest s)) by (tvf; exact V).
+    assert (W0 : forall x, (CW x (cset_queue e rest s) + cnt x (map fst (q_chain q)) = CW x s)%nat).
+    { intro x. pose proof (CW_set_queue x e rest s) as H. rewrite Q in H. unfold qslots at 1 in H. cbn [flat_map] in H.
+      fold (qslots rest) in H. rewrite cnt_app in H. lia. }
+    destruct (q_closed q).
+    { inversion E; subst; clear E. split; [tvf; apply (proj1 (sock_close_W 0 _ _ _ V0)) |]. intro x.
+      rewrite CW_add_free, (proj2 (sock_close_W x _ _ _ V0)). apply W0. }
+    assert (L0 : forall x, cnt x (lslots (loop_of e (cset_queue e rest s))) = O).
+    { intro x. replace (loop_of e (cset_queue e rest s)) with (loop_of e s) by (destruct e; reflexivity). rewrite L. reflexivity. }
+    destruct (tbl s (key e (q_sid q))) as [o|] eqn:T.
+    { inversion E; subst; clear E. split; [tvf; exact V0 |]. intro x.
+      pose proof (CW_set_loop x e (LHave o (PShm (q_chain q))) (cset_queue e rest s)) as H. rewrite L0 in H.
+      cbn [lslots pslots flat_map] in H. rewrite app_nil_r in H. specialize (W0 x). lia. }
+    destruct e; inversion E; subst; clear E.
+    + split; [tvf; apply TV_new_obj; exact V0 |]. intro x.
+      pose proof (CW_set_loop x true (LHave (nobjs (cset_queue true rest s)) (PShm (q_chain q))) (new_obj (fresh_obj true (q_sid q)) (cset_queue true rest s))) as H.
+      replace (loop_of true (new_obj (fresh_obj true (q_sid q)) (cset_queue true rest s))) with (loop_of true s) in H by reflexivity.
+      rewrite L in H. cbn [lslots pslots flat_map] in H. rewrite app_nil_r, CW_new_obj in H. cbn in H. specialize (W0 x). cbn in W0. lia.
+    + split; [tvf; exact V0 |]. intro x. rewrite CW_add_free. apply W0.
+Qed.
+
 Definition CInv (n : nat) (s : cst) : Prop := TV s /\ forall x, CW x s = cnt x (iota n).
 
 Lemma cinv_perm n s : CInv n s -> Permutation (call_slots s) (iota n).
@@ -145,9 +175,7 @@ Proof.
     { inversion E; subst; clear E. split; [tvf; exact V |]. intro x. rewrite CW_add_free. use_obj U. fold v in HW.
       unfold oslots in HW. rewrite ?cnt_app in HW. cbn in HW. lia. }
     destruct (osheap v || oinfb v).
-    { inversion E; subst; clear E.
-      assert (V1 : TV (cadd_free (osendb v) (set_obj o (sent v true) s))) by (tvf; exact V).
-      split; [apply (proj1 (sock_data_W 0 _ _ _ _ V1)) |]. intro x. rewrite (proj2 (sock_data_W x _ _ _ _ V1)), CW_add_free.
+    { inversion E; subst; clear E. split; [tvf; exact V |]. intro x. rewrite CW_push_sock, CW_add_free.
       use_obj U. fold v in HW. unfold oslots in HW. rewrite ?cnt_app in HW. cbn in HW. lia. }
     destruct (Z.of_nat (length (cqueue_to (negb (oe v)) s)) >=? cqcap s); inversion E; subst; clear E.
     + split; [tvf; exact V |]. intro x. rewrite !CW_add_free. pose proof (cnt_firstn_skipn x (S wpos) (osendb v)) as FS.
@@ -155,27 +183,7 @@ Proof.
     + split; [tvf; exact V |]. intro x. rewrite CW_enqueue by (destruct (oe v); reflexivity). cbn [q_chain].
       rewrite map_fst_zip_pad, CW_add_free. pose proof (cnt_firstn_skipn x (S wpos) (osendb v)) as FS.
       use_obj U. fold v in HW. unfold oslots in HW. rewrite ?cnt_app in HW. cbn in HW. cbn [firstn skipn] in *. lia.
-  - (* PollOne *) unfold c_poll_one in E. destruct (loop_of e s) eqn:L; try discriminate.
-    destruct (cqueue_to e s) as [|q rest] eqn:Q; [discriminate |].
-    assert (V0 : TV (cset_queue e rest s)) by (tvf; exact V).
-    assert (W0 : forall x, (CW x (cset_queue e rest s) + cnt x (map fst (q_chain q)) = CW x s)%nat).
-    { intro x. pose proof (CW_set_queue x e rest s) as H. rewrite Q in H. unfold qslots at 1 in H. cbn [flat_map] in H.
-      fold (qslots rest) in H. rewrite cnt_app in H. lia. }
-    destruct (q_closed q).
-    { inversion E; subst; clear E. split; [tvf; apply (proj1 (sock_close_W 0 _ _ _ V0)) |]. intro x.
-      rewrite CW_add_free, (proj2 (sock_close_W x _ _ _ V0)). apply W0. }
-    assert (L0 : forall x, cnt x (lslots (loop_of e (cset_queue e rest s))) = O).
-    { intro x. replace (loop_of e (cset_queue e rest s)) with (loop_of e s) by (destruct e; reflexivity). rewrite L. reflexivity. }
-    destruct (tbl s (key e (q_sid q))) as [o|] eqn:T.
-    { inversion E; subst; clear E. split; [tvf; exact V0 |]. intro x.
-      pose proof (CW_set_loop x e (LHave o (PShm (q_chain q))) (cset_queue e rest s)) as H. rewrite L0 in H.
-      cbn [lslots pslots flat_map] in H. rewrite app_nil_r in H. specialize (W0 x). lia. }
-    destruct e; inversion E; subst; clear E.
-    + split; [tvf; apply TV_new_obj; exact V0 |]. intro x.
-      pose proof (CW_set_loop x true (LHave (nobjs (cset_queue true rest s)) (PShm (q_chain q))) (new_obj (fresh_obj true (q_sid q)) (cset_queue true rest s))) as H.
-      replace (loop_of true (new_obj (fresh_obj true (q_sid q)) (cset_queue true rest s))) with (loop_of true s) in H by reflexivity.
-      rewrite L in H. cbn [lslots pslots flat_map] in H. rewrite app_nil_r, CW_new_obj in H. cbn in H. specialize (W0 x). cbn in W0. lia.
-    + split; [tvf; exact V0 |]. intro x. rewrite CW_add_free. apply W0.
+  - (* PollOne *) apply (c_poll_one_W e s s' V E).
   - (* LoopAdd *) unfold c_loop_add in E. destruct (loop_of e s) as [|o p|] eqn:L; try discriminate.
     destruct (valid o s) eqn:U; cbn [negb] in E; [| discriminate]. apply valid_lt in U. inversion E; subst; clear E.
     split; [tvf; exact V |]. intro x.
@@ -192,6 +200,13 @@ Proof.
       rewrite L in H. cbn [lslots] in H. rewrite cnt_nil in H. rewrite CW_add_free in H.
       use_obj U. unfold oslots in HW. rewrite ?cnt_app in *. destruct (cfx s); cbn in HW; rewrite ?cnt_nil in *; lia.
     + split; [tvf; exact V |]. intro x. pose proof (CW_set_loop x e LIdle s) as H. rewrite L in H. cbn in H. lia.
+  - (* SockStep *) unfold c_sock_step in E. destruct (loop_of e s) eqn:L; try discriminate.
+    destruct (sock_to e s) as [|i rest]; [discriminate |].
+    destruct (cqueue_to e s) as [|q0 qr] eqn:Q; [| apply (c_poll_one_W e s s' V E)].
+    assert (V0 : TV (set_sock e rest s)) by (tvf; exact V).
+    destruct i; inversion E; subst; clear E.
+    + split; [apply (proj1 (sock_data_W 0 _ _ _ _ V0)) |]. intro x. rewrite (proj2 (sock_data_W x _ _ _ _ V0)). apply CW_set_sock.
+    + split; [apply (proj1 (sock_close_W 0 _ _ _ V0)) |]. intro x. rewrite (proj2 (sock_close_W x _ _ _ V0)). apply CW_set_sock.
   - (* MoveTo *) unfold c_moveto in E. destruct (usable o s) eqn:U; cbn [negb] in E; [| discriminate]. apply usable_lt in U.
     pose proof (fun x => move_fold_cnt x (opend (objs s o)) (orecvb (objs s o)) [] (oinfb (objs s o))) as HM.
     destruct (fold_left _ (opend (objs s o)) (orecvb (objs s o), [], oinfb (objs s o))) as [[rb fr0] fb].
@@ -235,7 +250,7 @@ Proof.
       { intro x. use_obj U. fold v in HW. unfold oslots in HW. rewrite ?cnt_app in HW. lia. }
       destruct (onotify v); cbn [negb] in E; [| inversion E; subst; split; [exact V1 | exact W1]].
       destruct (oinfb v || _); inversion E; subst; clear E.
-      * split; [apply (proj1 (sock_close_W 0 _ _ _ V1)) |]. intro x. rewrite (proj2 (sock_close_W x _ _ _ V1)). apply W1.
+      * split; [tvf; exact V1 |]. intro x. rewrite CW_push_sock. apply W1.
       * split; [tvf; exact V1 |]. intro x. rewrite CW_enqueue by (destruct (oe v); reflexivity). cbn. rewrite W1. lia.
   - (* CExtHold *) unfold c_ext_hold in E. destruct (subsetb new (cfree s) && nodupb new) eqn:C; [| discriminate].
     apply andb_true_iff in C. destruct C as [C1 C2]. inversion E; subst; clear E. split; [tvf; exact V |]. intro x.
@@ -345,6 +360,20 @@ Ltac user0 J U := apply CJ_set_obj; [exact J | apply oj_cpc0; cbn [upd_obj sent 
 Lemma usable_cpc o s : usable o s = true -> ocpc (objs s o) = O.
 Proof. unfold usable. rewrite !andb_true_iff. intros [_ H]. apply Nat.eqb_eq, H. Qed.
 
+Lemma c_poll_one_J e s s' : CJ s -> c_poll_one e s = Some s' -> CJ s'.
+Proof.
+  intros J E.
+  unfold c_poll_one in E. destruct (loop_of e s) eqn:L; try discriminate. destruct (cqueue_to e s) as [|q rest]; [discriminate |].
+    assert (J0 : CJ (cset_queue e rest s)) by (cjf; exact J).
+    assert (N0 : forall s1, loop_of e s1 = loop_of e s -> forall o, loop_of e s1 <> LAdded o) by (intros s1 H o; rewrite H, L; discriminate).
+    destruct (q_closed q); [inversion E; subst; cjf; apply CJ_sock_close; exact J0 |].
+    destruct (tbl s _).
+    + inversion E; subst. apply CJ_set_loop_nonadded; [apply N0; destruct e; reflexivity | exact J0].
+    + destruct e; inversion E; subst.
+      * apply CJ_set_loop_nonadded; [apply N0; reflexivity | apply CJ_new_obj; [exact J0 | reflexivity]].
+      * cjf. exact J0.
+Qed.
+
 Lemma cstep_J s l s' : CJ s -> cstep s l = Some s' -> CJ s'.
 Proof.
   intros J E. pose proof J as (Fx & Lk & Hj). destruct l; cbn [cstep] in E.
@@ -356,17 +385,9 @@ Proof.
     destruct (_ <=? 0); [inversion E; subst; exact J |].
     assert (S1 : forall fb, CJ (set_obj o (sent v fb) s)) by (intro fb; apply CJ_set_obj; [exact J | apply oj_cpc0; exact U]).
     destruct (oclosed v || ohalf v); [inversion E; subst; cjf; apply S1 |].
-    destruct (osheap v || oinfb v); [inversion E; subst; apply CJ_sock_data; cjf; apply S1 |].
+    destruct (osheap v || oinfb v); [inversion E; subst; cjf; cjf; apply S1 |].
     destruct (_ >=? _); inversion E; subst; cjf; cjf; apply S1.
-  - unfold c_poll_one in E. destruct (loop_of e s) eqn:L; try discriminate. destruct (cqueue_to e s) as [|q rest]; [discriminate |].
-    assert (J0 : CJ (cset_queue e rest s)) by (cjf; exact J).
-    assert (N0 : forall s1, loop_of e s1 = loop_of e s -> forall o, loop_of e s1 <> LAdded o) by (intros s1 H o; rewrite H, L; discriminate).
-    destruct (q_closed q); [inversion E; subst; cjf; apply CJ_sock_close; exact J0 |].
-    destruct (tbl s _).
-    + inversion E; subst. apply CJ_set_loop_nonadded; [apply N0; destruct e; reflexivity | exact J0].
-    + destruct e; inversion E; subst.
-      * apply CJ_set_loop_nonadded; [apply N0; reflexivity | apply CJ_new_obj; [exact J0 | reflexivity]].
-      * cjf. exact J0.
+  - apply (c_poll_one_J e s s' J E).
   - unfold c_loop_add in E. destruct (loop_of e s) as [|o p|] eqn:L; try discriminate.
     destruct (valid o s); cbn [negb] in E; [| discriminate]. inversion E; subst; clear E.
     set (v := objs s o). destruct (Hj o) as (A & B & C & D). fold v in A, B, C, D.
@@ -386,6 +407,11 @@ Proof.
         exact (conj A (conj (fun _ => or_introl eq_refl) (conj (fun _ => conj eq_refl eq_refl) D))).
       * intros _. cbn [cadd_free set_obj objs]. rewrite updn_eq. reflexivity.
     + apply (CJ_set_loop_idle e o s L J). intro Q. assert (false = true) by (apply A; fold v in Q; lia). discriminate.
+  - unfold c_sock_step in E. destruct (loop_of e s) eqn:L; try discriminate.
+    destruct (sock_to e s) as [|i rest]; [discriminate |].
+    destruct (cqueue_to e s) as [|q0 qr] eqn:Q; [| apply (c_poll_one_J e s s' J E)].
+    assert (J0 : CJ (set_sock e rest s)) by (cjf; exact J).
+    destruct i; inversion E; subst; [apply CJ_sock_data | apply CJ_sock_close]; exact J0.
   - unfold c_moveto in E. destruct (usable o s) eqn:U; cbn [negb] in E; [| discriminate]. apply usable_cpc in U.
     destruct (fold_left _ _ _) as [[rb fr0] fb]. inversion E; subst. cjf. apply CJ_set_obj; [exact J | apply oj_cpc0; exact U].
   - unfold c_readk in E. destruct (usable o s) eqn:U; cbn [negb] in E; [| discriminate]. apply usable_cpc in U.
@@ -413,7 +439,7 @@ Proof.
       { apply CJ_set_obj; [exact J |]. unfold with_cpc, upd_obj. oj4; cbn [ocpc oclosed opend orecvb opinned osendb] in *;
           [apply A; lia | apply B; lia | apply C; lia | apply D; lia]. }
       destruct (onotify v); cbn [negb] in E; [| inversion E; subst; exact J1].
-      destruct (oinfb v || _); inversion E; subst; [apply CJ_sock_close; exact J1 | cjf; exact J1].
+      destruct (oinfb v || _); inversion E; subst; [cjf; exact J1 | cjf; exact J1].
   - unfold c_ext_hold in E. destruct (_ && _); [| discriminate]. inversion E; subst. cjf. exact J.
   - inversion E; subst. cjf. exact J.
   - unfold c_inject in E. destruct (_ && _); cbn [negb] in E; [| discriminate]. destruct (_ >=? _); [discriminate |].
